@@ -338,6 +338,56 @@ def rule_r6(F, rep):
     rep.trust("Jsonnet tail positions (local body, if branches, assert continuation, function body), rules/c10.py:TAIL_OK")
 
 
+def rule_r7(F, rep):
+    R = rep.rule("C10.R7", "the uncounted tail-call path is taken only by calls of ordinary (Jsonnet) functions marked `tailstrict`: "
+                 "for every other kind of callee (builtin, native, identity) and for every call without the flag, the call handler "
+                 "pushes the Call trace item before entering the function — builtins rely on that frame to bound recursion through "
+                 "their callbacks")
+    FKIND = "rsjsonnet_lang::program::data::FuncKind"
+    run = F.fn("<%s>::run" % EVAL)
+    body = run.body
+    for kind in F.variants(FKIND):
+        for tail in (0, 1):
+            def after(w, bb, idx, st, env, kind=kind, tail=tail):
+                rv = st["rv"]
+                if rv["k"] == "use" and rv["x"]["k"] in ("copy", "move"):
+                    x = rv["x"]
+                    if x["p"] and x["p"][-1] != "*" and x["p"][-1]["k"] == "f" and x["p"][-1]["n"] == "tailstrict":
+                        env[w.norm(env, st["p"])] = tail
+                if rv["k"] == "discr" and rv.get("adt") == FKIND:
+                    env[w.norm(env, rv["p"])] = ("var", FKIND, kind)
+                    env[w.norm(env, st["p"])] = w.discr_of_variant(FKIND, kind)
+
+            def stop(w, bb, t, env):
+                if t["k"] == "call" and (callee_name(t) or "") == "<%s>::maybe_gc" % PROGRAM:
+                    return kwalk.STOP
+                return None
+            m = em.Marker(F, body, 1, True, extra_term=stop)
+            m.stop_on_limit = True
+            w = kwalk.Walker(F, body, on_term=m.on_term, on_stmt=m.on_stmt, after_stmt=after, ordered_marks=True, dedupe_marks=True,
+                             call_result=em.injector(F, body, values=["Function"], state="CallWithExpr"), want_ret=True)
+            outs = w.run(0, {})
+            rep.states += w.states_explored
+            shapes = set()
+            for o in outs:
+                if o[0].startswith("diverge") or em.is_err_return(o):
+                    continue
+                pushes = [x if not isinstance(x, tuple) else x[0] for x in (mm[2] for mm in o[1] if mm[0] == "push" and mm[1] == "state_stack")]
+                calls = [mm[1] for mm in o[1] if mm[0] == "call"]
+                if "ExecTailstrictCall" in pushes:
+                    shapes.add("tail-path")
+                elif "push_trace_item" in calls and "execute_call" in calls:
+                    shapes.add("counted-call")
+                else:
+                    shapes.add("other:%s" % ",".join(calls[:4]))
+            exp = {"tail-path"} if (kind == "Normal" and tail) else {"counted-call"}
+            ok = shapes == exp
+            rep.ob(R, "CallWithExpr|%s|tailstrict=%d" % (kind, tail), ok, {"callee_kind": kind, "tailstrict": tail, "shape": sorted(shapes)})
+            if not ok:
+                rep.violation(R, "CallWithExpr|%s|tailstrict=%d" % (kind, tail),
+                              "a call of a %s function with tailstrict=%d takes %s; expected %s" % (kind, tail, sorted(shapes), sorted(exp)), run.loc)
+
+
 def run(F, rep, tier):
     rule_r1(F, rep)
     rule_r2(F, rep)
@@ -345,6 +395,7 @@ def run(F, rep, tier):
     rule_r4(F, rep)
     rule_r5(F, rep)
     rule_r6(F, rep)
+    rule_r7(F, rep)
     rep.assume("tail calls marked `tailstrict` are deliberately not counted (tail-call elimination is the language's "
                "semantics); frames for nesting that goes through expression evaluation are decided only as far as R2/R5 "
                "reach; the exact off-by-one of the limit is not decided")
